@@ -105,6 +105,14 @@ IntCases ==
                      text |-> Prefix(r, up) \o Join(sp), canon |-> Canon(m)] :
                      up \in BOOLEAN, n \in BOOLEAN, sp \in Placements(m) } : m \in Mags(r) } : r \in {2, 8, 10, 16} }
 
+(* integers of 2^128 and more have no representation: they must be diagnosed, never stored as another number *)
+MagOver == { [r |-> 10, m |-> <<"3","4","0","2","8","2","3","6","6","9","2","0","9","3","8","4","6","3","4","6","3","3","7","4","6","0","7","4","3","1","7","6","8","2","1","1","4","5","6">>],
+             [r |-> 10, m |-> <<"3","4","0","2","8","2","3","6","6","9","2","0","9","3","8","4","6","3","4","6","3","3","7","4","6","0","7","4","3","1","7","6","8","2","1","1","4","5","7">>],
+             [r |-> 16, m |-> <<"1">> \o Rep("0", 32)], [r |-> 16, m |-> <<"1">> \o Rep("0", 31) \o <<"1">>], [r |-> 16, m |-> <<"f">> \o Rep("0", 32)],
+             [r |-> 2, m |-> Pow2(128)], [r |-> 2, m |-> SubSeq(Pow2(128), 1, 128) \o <<"1">>], [r |-> 8, m |-> <<"4">> \o Rep("0", 42)], [r |-> 8, m |-> <<"7">> \o Rep("0", 42)] }
+OverflowCases == { [cls |-> "int_overflow", radix |-> o.r, neg |-> FALSE, suffix |-> "", text |-> Prefix(o.r, FALSE) \o Join(o.m), canon |-> ""] : o \in MagOver }
+                 \cup { [cls |-> "int_overflow", radix |-> 10, neg |-> FALSE, suffix |-> "im", text |-> Join(o.m) \o "im", canon |-> ""] : o \in {x \in MagOver : x.r = 10} }
+
 (* the same spellings are also used with units and `im` (decimal only; a blank or not); the magnitudes around the *)
 (* representation boundaries (2^31 .. 2^128-1) are used there too                                             *)
 Units == { [t |-> "dt", u |-> "Cycle"], [t |-> "ns", u |-> "NanoSecond"], [t |-> "us", u |-> "MicroSecond"],
@@ -122,8 +130,9 @@ ImagIntCases ==
              sp \in Placements(m), gap \in {"", " "}, n \in BOOLEAN } : m \in SmallDec \cup MagDec }
 
 (* floats: integer part, optional fraction, optional exponent; CanonText = no underscores *)
-IntParts  == { <<"0">>, <<"1">>, <<"1", "0">>, <<"1", "_", "0">>, <<"1","2","3","4","5","6","7","8","9">>, <<"0", "0", "7">> }
-FracParts == { <<>>, <<"5">>, <<"0">>, <<"2", "5">>, <<"5", "_", "0">>, <<"0","0","0","1">>, <<"1","2","3","4","5","6","7","8","9","0","1","2","3","4","5","6","7","8","9">> }
+(* <<"2", "_">> and <<"5", "_">>: a separator directly in front of the exponent or the dot is accepted by the front end *)
+IntParts  == { <<"0">>, <<"1">>, <<"1", "0">>, <<"1", "_", "0">>, <<"1","2","3","4","5","6","7","8","9">>, <<"0", "0", "7">>, <<"2", "_">> }
+FracParts == { <<>>, <<"5">>, <<"0">>, <<"2", "5">>, <<"5", "_", "0">>, <<"5", "_">>, <<"0","0","0","1">>, <<"1","2","3","4","5","6","7","8","9","0","1","2","3","4","5","6","7","8","9">> }
 Exps      == { <<>>, <<"e", "3">>, <<"E", "3">>, <<"e", "-", "3">>, <<"E", "+", "3">>, <<"e", "1", "_", "0">>, <<"e", "0">>,
                <<"e", "-", "3", "0", "0">>, <<"e", "3", "0", "8">>, <<"e", "+", "2">> }
 (* shapes: "I.F", "I.", ".F", "I" (needs an exponent) *)
@@ -155,7 +164,7 @@ BitCasesOK == { c \in BitCases : TRUE }
 BoolCases == { [cls |-> "bool", radix |-> 0, neg |-> FALSE, suffix |-> "", text |-> "true", canon |-> "true"],
                [cls |-> "bool", radix |-> 0, neg |-> FALSE, suffix |-> "", text |-> "false", canon |-> "false"] }
 
-AllCases == IntCases \cup TimingIntCases \cup ImagIntCases \cup FloatCases \cup TimingFloatCases
+AllCases == IntCases \cup OverflowCases \cup TimingIntCases \cup ImagIntCases \cup FloatCases \cup TimingFloatCases
             \cup ImagFloatCases \cup BoolCases
 
 
